@@ -63,3 +63,8 @@ claim("C16",
  "Trusted: go/types; the lossy-key rule is specific to package alt's map[string]*composer registries.",
  "static analysis: def-use tracking of lossy keys with required identity comparison; loop-bound and loop-freshness lints; type-driven argument check",
  "DESIGN.md §4 C16")
+claim("C19",
+ "Static decision of structural clauses of Diff/Compare/Match: one shared implementation whose early exits only follow a recorded difference (Compare nil iff Diff empty), both operands' keys reach the comparison in the map case, a length difference is recorded in the slice case, ignore tests precede recording, numeric widening helpers convert directly, Match never compares object sizes. Soundness/completeness of the reported paths and ignore-path semantics are not decided.",
+ "Trusted: go/types; the rules are specific to the shape of alt/diff.go (located through the public functions Diff, Compare, Match).",
+ "static analysis: control-dependence of early returns on recorded differences, dataflow of key sets, conversion-chain lint",
+ "DESIGN.md §4 C19")
